@@ -461,6 +461,25 @@ def check_server(mido, tshim, acc, nclients, nmsgs, mode):
                           f'{nclients} clients x {nmsgs}: got {got}, expected '
                           f'each of {want} exactly once (per-client order)',
                           case)
+        elif nclients and mode == 'poll':
+            # closing the server port is a disconnect for every client it
+            # had accepted (the accepted ports are still referenced by it)
+            server.close()
+            import select as _select
+            for c, cl in enumerate(clients):
+                r, _, _ = _select.select([cl._socket], [], [], 5.0)
+                eof = False
+                if r:
+                    try:
+                        eof = cl._socket.recv(1, socket.MSG_PEEK) == b''
+                    except OSError:
+                        eof = True
+                if not eof:
+                    acc.violation('server/close-not-seen-by-client',
+                                  f'PortServer.close() with {nclients} '
+                                  f'accepted clients: client {c} saw no end '
+                                  f'of stream within 5 s', case)
+                    break
     finally:
         tshim.on_sleep = None
         for cl in clients:
